@@ -69,7 +69,8 @@ ContentAtomic ==
 \* of a bucket is empty: a record starts with its own newline)
 GoodLine(ls, i) == ls[i].t = "rec" \/ (i = 1 /\ ls[i].t = "empty")
 NoPartialRecord ==
-    (~crashed) => \A k \in DOMAIN buckets : \A i \in 1..Len(buckets[k]) : GoodLine(buckets[k], i)
+    (~crashed /\ faults = 0) =>
+       \A k \in DOMAIN buckets : \A i \in 1..Len(buckets[k]) : GoodLine(buckets[k], i)
 
 \* C04 / C13: whenever an entry is visible its content is completely stored (programs that
 \* remove content by address switch this off in the header)
@@ -87,7 +88,11 @@ BucketStepOK(p, e) ==
           THEN \/ buckets'[k] = buckets[k]
                \/ /\ Len(buckets'[k]) = Len(buckets[k]) + 1            \* exactly one more line
                   /\ IsPrefix(buckets[k], buckets'[k])                 \* append only
-                  /\ buckets'[k][Len(buckets'[k])].t = "rec"           \* a whole record, one write
+                  /\ \/ buckets'[k][Len(buckets'[k])].t = "rec"        \* a whole record, one write
+                     \/ e.action = "short"                            \* (the kernel cut the write short)
+               \/ /\ faults > 0                                        \* the rest of a write cut short
+                  /\ Len(buckets'[k]) = Len(buckets[k]) /\ Len(buckets[k]) > 0
+                  /\ IsPrefix(SubSeq(buckets[k], 1, Len(buckets[k]) - 1), buckets'[k])
           ELSE \/ buckets'[k] = <<EmptyLine>>                          \* created by open(O_CREAT)
                \/ (Len(buckets'[k]) = 2 /\ buckets'[k][1] = EmptyLine /\ buckets'[k][2].t = "rec")
     /\ \A k \in DOMAIN buckets \ DOMAIN buckets' :
@@ -122,7 +127,7 @@ StepOK(e) ==
     \* the state invariants, evaluated on the new state (they are also INVARIANTs of the
     \* normal configuration; repeated here so that diagnostic mode can name them)
     /\ Chk("ContentAtomic", \A a \in DOMAIN store' : store'[a].k = "file" => store'[a].b = a.d)
-    /\ Chk("NoPartialRecord", (~crashed) => \A k \in DOMAIN buckets' :
+    /\ Chk("NoPartialRecord", (~crashed /\ faults = 0 /\ ~e.faulted /\ e.action # "short") => \A k \in DOMAIN buckets' :
                                   \A i \in 1..Len(buckets'[k]) : GoodLine(buckets'[k], i))
 
 (* ---- crash rules ------------------------------------------------------------------ *)
@@ -223,7 +228,7 @@ TSys == /\ l <= N /\ Ev.ev = "sys"
         /\ Adopt(Ev.snap)
         /\ StepOK(Ev)
         /\ Chk("RecordsResolvable", RecordsResolvable)
-        /\ faults' = IF Ev.faulted THEN faults + 1 ELSE faults
+        /\ faults' = IF Ev.faulted \/ Ev.action = "short" THEN faults + 1 ELSE faults
         /\ UNCHANGED <<pre, ops, results, crashed>>
         /\ l' = l + 1
 
